@@ -591,6 +591,10 @@ def horizon_of(cfg):
     return tot
 
 
+class PreShutFailed(Exception):
+    """the shutdown() issued before the run went wrong: the scenario stops there"""
+
+
 class WallClock(BaseException):
     """the scenario is taking real time: the library left the virtual loop, or spins"""
 
@@ -624,11 +628,19 @@ def _run_scenario(sc):
             if ctx.cfg.get("preshut"):
                 # shutdown() before the run: every job hears of it now, and never again
                 ctx.pre = True
+                failed = None
                 try:
                     top.shutdown()
+                except (Deadlock, Livelock):
+                    failed = "hang"
+                except BaseException as exc:            # pylint: disable=W0703
+                    failed = type(exc).__name__
                 finally:
                     ctx.pre = False
-                assert loop.vtime == 0
+                if failed or loop.vtime != 0:
+                    # an instantaneous shutdown of an idle tree neither raises, hangs nor takes time
+                    ctx.log("late-exc", 1, failed or "took-time")
+                    raise PreShutFailed()
             loop.on_tick = ctx.tick
             ucancel = ctx.cfg.get("ucancel", -1)
             try:
@@ -677,6 +689,8 @@ def _run_scenario(sc):
                         loop.run_until_complete(asyncio.sleep(hor))
                     except (Deadlock, Livelock):
                         pass
+    except PreShutFailed:
+        pass
     finally:
         ctx.closed = True
         CLOCK.loop = None
